@@ -453,11 +453,13 @@ let cmd_pg (x : sx) : sx =
             res_sx (fun ms -> sorted_sx (List.map (fun (p, m) -> L [n_sx p; pgmap_sx m]) ms))
               (run pg_dom pg_fuel a (sx_pghost h)))
            (match hosts with L l -> l | _ -> failwith "hosts"))
-  | L [A "pg-cert"; aut; present] ->
+  | L [A "pg-cert"; aut; present; css] ->
       let a = sx_automaton sx_pgkey sx_pgcons aut in
       let pres = sx_list sx_bool present in
       let ids = List.filteri (fun i _ -> List.nth pres i) (List.mapi (fun i _ -> n_of_int i) pres) in
-      L [A "wf"; bool_sx (wf_check pg_dom a (compute_rank a) ids)]
+      let cs = sx_list (fun cs -> sx_list sx_pgcons cs) css in
+      L [A "wf"; bool_sx (wf_check pg_dom a (compute_rank a) ids);
+         A "sound"; bool_sx (lab_ok pg_dom (fun _ -> true) pg_atoms a (compute_lab pg_dom pg_atoms a) cs)]
   | _ -> failwith "pg args"
 
 let dispatch (x : sx) : sx =
